@@ -444,6 +444,29 @@ def used_area_growth(ctx):
         ctx.count('directed:used_area_growth')
 
 
+def revisions(ctx):
+    """directed: two revisions of one workbook in one process - the same formula texts in the same cells of a sheet of
+    the same name, the defined names they use pointing to other cells (and a table-like block moved by a column): the
+    second revision follows writes to what *its* names refer to"""
+    def rev(rate, costs):
+        cells = {'A1': 1, 'A2': 2, 'A3': 3, 'B1': 10, 'B2': 20, 'B3': 30, 'C1': '=rate*2', 'C2': '=SUM(costs)+C1', 'C3': '=C2&"|"&rate'}
+        spec = {'sheets': [['Sheet1', cells]], 'names': {'rate': f'Sheet1!${rate[0]}${rate[1]}',
+                                                         'costs': f'Sheet1!${costs[0]}$1:${costs[0]}$3'}, 'arrays': [], 'calc': None}
+        r, cs = f'Sheet1!{rate}', [f'Sheet1!{costs[0]}{i}' for i in (1, 2, 3)]
+        meta = {'inputs': [f'Sheet1!{c}' for c in ('A1', 'A2', 'A3', 'B1', 'B2', 'B3')], 'order': [f'Sheet1!{c}' for c in cells],
+                'formulas': {'Sheet1!C1': {'form': 'name', 'deps': [r]}, 'Sheet1!C2': {'form': 'name', 'deps': cs + ['Sheet1!C1']},
+                             'Sheet1!C3': {'form': 'name', 'deps': ['Sheet1!C2', r]}}}
+        return spec, meta
+    for config in ('mem', 'xlsx', 'json'):
+        for k, (rate, costs) in enumerate((('A1', 'A'), ('B2', 'B'), ('A3', 'B'), ('A1', 'A'))):
+            spec, meta = rev(rate, costs)
+            ops = [['eval', 'Sheet1!C3'], ['set', f'Sheet1!{rate}', 7 + k], ['eval', 'Sheet1!C3'], ['eval', 'Sheet1!C1'],
+                   ['set', f'Sheet1!{costs}2', 100 + k], ['eval', 'Sheet1!C2'], ['set', 'Sheet1!A1', 50 + k], ['set', 'Sheet1!B2', 60 + k],
+                   ['eval', 'Sheet1!C3'], ['eval', 'Sheet1!C2']]
+            ctx.count('directed:revisions')
+            one_history(ctx, spec, meta, config, True, ops=ops)
+
+
 def big_history(ctx, rng, config):
     """one history on a workbook of the sizes the small generator never reaches (vp.wbgen.big): writes to the head of
     a 90-140 cell chain, into a 1000 cell block beyond column Z, to the keys of a 300-600 row table, on a dozen
@@ -489,6 +512,8 @@ def run(ctx):
     i = 0
     if ctx.shard == 0:
         used_area_growth(ctx)
+    if ctx.shard == 1 % ctx.nshards:
+        revisions(ctx)
     # histories on the workbooks shipped with the repository (several hundred hand-written formulas each)
     realbooks.run_cases(ctx, realbooks.c01_case, realbooks.acyclic_books(), 8 if ctx.quick else 80, fraction=0.3)
     while not ctx.out_of_time():
